@@ -573,7 +573,7 @@ pub fn run_program(cfg: &Config, steps: &mut dyn Iterator<Item = Step>, source: 
     app.insert_react_resource(R2(0));
 
     let nsys = cfg.nsys();
-    let total_sys = nsys + cfg.nonce + cfg.nworld + cfg.neworld;
+    let total_sys = nsys + cfg.nonce + cfg.nworld + cfg.neworld + cfg.app.len();
     STATE.with(|s| *s.borrow_mut() = Some(HState{
         cfg: cfg.clone(),
         sys: vec![None; total_sys + 1],
@@ -606,6 +606,8 @@ pub fn run_program(cfg: &Config, steps: &mut dyn Iterator<Item = Step>, source: 
     if cfg.nworld >= 1 { app.add_world_reactor(W1); }
     if cfg.nworld >= 2 { app.add_world_reactor(W2); }
     if cfg.neworld >= 1 { app.add_entity_reactor(EW1); }
+    // Systems the framework spawned itself are found by looking for new system command entities (in spawn order).
+    let discover = |app: &mut App, first: usize| -> usize
     {
         let world = app.world_mut();
         let found: Vec<Entity> = post::system_command_entities(world);
@@ -613,16 +615,26 @@ pub fn run_program(cfg: &Config, steps: &mut dyn Iterator<Item = Step>, source: 
             let known: Vec<Entity> = st.sys.iter().flatten().copied().collect();
             let mut extra: Vec<Entity> = found.into_iter().filter(|e| !known.contains(e)).collect();
             extra.sort();
+            let n = extra.len();
             for (k, e) in extra.into_iter().enumerate()
             {
-                let idx = nsys + cfg.nonce + 1 + k;
+                let idx = first + k;
                 if idx < st.sys.len() { st.sys[idx] = Some(e); }
             }
-        });
+            n
+        })
+    };
+    discover(&mut app, nsys + cfg.nonce + 1);
+    // `App::add_reactor`: every call registers its own system (all harness closures have the same type)
+    let app_first = nsys + cfg.nonce + cfg.nworld + cfg.neworld + 1;
+    for (i, b) in cfg.app.iter().enumerate()
+    {
+        app.add_reactor(bundle(b), plain_system(app_first + i));
     }
+    let appsys = if cfg.app.is_empty() { 0 } else { discover(&mut app, app_first) };
 
     emit(json!({"t":"cfg","nsys":nsys,"nonce":cfg.nonce,"nent":cfg.nent,"nworld":cfg.nworld,"neworld":cfg.neworld,
-        "hier":cfg.hier,"kinds":cfg.kinds}));
+        "hier":cfg.hier,"app":cfg.to_json()["app"],"appsys":appsys,"kinds":cfg.kinds}));
     let mut panicked = false;
     let mut n = 0usize;
     while let Some(step) = steps.next()
